@@ -6,7 +6,7 @@ use crate::refmodel::*;
 use crate::report::guard;
 use serde::{Deserialize, Serialize};
 use std::collections::BTreeMap;
-use vaporetto::{Sentence, SolverType, Trainer, VerifFeature, VerifTrainTrace};
+use vaporetto::{Sentence, SolverType, Trainer, VerifFeature, VerifRawLearner, VerifTrainTrace};
 
 #[derive(Clone, Debug, Serialize, Deserialize, PartialEq, Eq, Hash)]
 pub struct Config {
@@ -218,4 +218,87 @@ pub fn tag_matrix_corpora(slots: usize, occ: usize, step: usize) -> Vec<Corpus> 
         out.push(Corpus { name: format!("matrix[{}]", name.trim_end()), lines, tag_dict: vec![] });
     }
     out
+}
+
+
+const QMAX: f64 = 32767.0; // (1 << (QUANTIZE_BIT_DEPTH - 1)) - 1
+
+fn trunc(x: f64) -> i32 {
+    x as i32 // truncation toward zero, what to_int_unchecked does for in-range values
+}
+
+/// The quantised boundary classifier dictated by the learner's RAW output (recorded by the hook
+/// before the trainer looks anything up): the word-boundary class is the position of label 1 in
+/// the learner's label list; everything is divided by max|.|/32767 and truncated.
+pub fn expected_boundary(raw: &VerifRawLearner) -> Result<(i32, BTreeMap<VerifFeature, i32>), String> {
+    let idx = raw.labels.iter().position(|&l| l == 1).ok_or("the learner has no word-boundary class")?;
+    let mut wmax = raw.bias[idx].abs();
+    for (_, c) in &raw.coef {
+        wmax = wmax.max(c[idx].abs());
+    }
+    let mult = wmax / QMAX;
+    if mult == 0.0 {
+        return Err("all weights are zero".into());
+    }
+    Ok((trunc(raw.bias[idx] / mult), raw.coef.iter().map(|(f, c)| (f.clone(), trunc(c[idx] / mult))).collect()))
+}
+
+/// The quantised tag classifier of one (token, category) dictated by the learner's raw output:
+/// per learner class id the bias and the weight of every feature.
+#[allow(clippy::type_complexity)]
+pub fn expected_tag(raw: &VerifRawLearner) -> (BTreeMap<usize, i32>, BTreeMap<(usize, VerifFeature), i32>) {
+    let mut wmax = 1e-6f64;
+    for i in 0..raw.labels.len() {
+        wmax = wmax.max(raw.bias[i].abs());
+        for (_, c) in &raw.coef {
+            wmax = wmax.max(c[i].abs());
+        }
+    }
+    let mult = wmax / QMAX;
+    let mut b = BTreeMap::new();
+    let mut w = BTreeMap::new();
+    for (i, &cls) in raw.labels.iter().enumerate() {
+        b.insert(cls as usize, trunc(raw.bias[i] / mult));
+        for (f, c) in &raw.coef {
+            w.insert((cls as usize, f.clone()), trunc(c[i] / mult));
+        }
+    }
+    (b, w)
+}
+
+/// Compares the trainer's own (quantised) trace with what the raw learner output dictates.
+pub fn check_trace_against_learner(trace: &VerifTrainTrace) -> Option<(String, String)> {
+    if let Some(raw) = &trace.raw_boundary {
+        match expected_boundary(raw) {
+            Err(e) => return Some(("learner-boundary".into(), format!("a model was returned although {e}"))),
+            Ok((bias, weights)) => {
+                if bias != trace.bias {
+                    return Some(("learner-bias".into(), format!("the trainer took bias {} from the learner; the learner's word-boundary class (labels {:?}, raw biases {:?}) quantises to {bias}", trace.bias, raw.labels, raw.bias)));
+                }
+                let got: BTreeMap<VerifFeature, i32> = trace.weights.iter().cloned().collect();
+                if got != weights {
+                    let d: Vec<String> = weights.iter().filter(|(f, w)| got.get(*f) != Some(*w)).take(3).map(|(f, w)| format!("{f:?}: trainer {:?}, learner {w}", got.get(f))).collect();
+                    return Some(("learner-weights".into(), format!("the trainer's quantised weights differ from the learner's raw coefficients: {}", d.join("; "))));
+                }
+                if raw.num_features != raw.coef.len() {
+                    return Some(("learner-features".into(), format!("the learner has {} features, the trainer's feature table {}", raw.num_features, raw.coef.len())));
+                }
+            }
+        }
+    } else {
+        return Some(("learner-missing".into(), "no raw learner output was recorded for the boundary model".into()));
+    }
+    for (tok, cat, raw) in &trace.raw_tags {
+        let (eb, ew) = expected_tag(raw);
+        let gb: BTreeMap<usize, i32> = trace.tag_biases.iter().filter(|x| &x.0 == tok && x.1 == *cat).map(|x| (x.2, x.3)).collect();
+        if gb != eb {
+            return Some(("learner-tag-bias".into(), format!("token {tok:?} category {cat}: trainer biases {gb:?}, the learner's raw output quantises to {eb:?}")));
+        }
+        let gw: BTreeMap<(usize, VerifFeature), i32> = trace.tag_weights.iter().filter(|x| &x.0 == tok && x.1 == *cat).map(|x| ((x.2, x.3.clone()), x.4)).collect();
+        if gw != ew {
+            let d: Vec<String> = ew.iter().filter(|(k, w)| gw.get(*k) != Some(*w)).take(3).map(|(k, w)| format!("{k:?}: trainer {:?}, learner {w}", gw.get(k))).collect();
+            return Some(("learner-tag-weights".into(), format!("token {tok:?} category {cat}: {}", d.join("; "))));
+        }
+    }
+    None
 }
